@@ -6,6 +6,7 @@ import (
 	"bytes"
 	"fmt"
 	"math/big"
+	"sort"
 	"sync/atomic"
 	"testing"
 
@@ -488,6 +489,82 @@ func TestVerifC16(t *testing.T) {
 				r.EvalN(fmt.Sprintf("field-%s:internal-limbs,top=%016x", f.name, A[3]), n)
 			})
 			r.Note("internal_limb_operands_"+f.name, len(raws))
+		}
+
+		// internal limbs TIED with the limbs of derived constants: a hand-written shortcut (doubling, halving,
+		// comparison against (m+1)/2, ...) decides on constants that appear nowhere in the word-by-word code;
+		// its edge is an operand whose top 1..3 limbs EQUAL those of the constant, the next limb just above /
+		// below / equal. Every unary and same-object operation is judged on them (x.Add(x,x), x.Mul(x,x), ...).
+		{
+			consts := map[string]*big.Int{"m": m, "(m+1)/2": new(big.Int).Rsh(new(big.Int).Add(m, c16One), 1), "(m-1)/2": new(big.Int).Rsh(m, 1), "2^256-m": new(big.Int).Sub(c16B256, m),
+				"2^256 mod m": new(big.Int).Mod(c16B256, m), "2^512 mod m": new(big.Int).Mod(new(big.Int).Mul(c16B256, c16B256), m), "(m+1)/4": new(big.Int).Rsh(new(big.Int).Add(m, c16One), 2), "2^255": new(big.Int).Lsh(c16One, 255)}
+			limbs4 := func(v *big.Int) [4]uint64 {
+				ls := limbsOf(v)
+				return [4]uint64{ls[0], ls[1], ls[2], ls[3]}
+			}
+			nTies := 0
+			var cnames []string
+			for name := range consts {
+				cnames = append(cnames, name)
+			}
+			sort.Strings(cnames)
+			for _, name := range cnames {
+				cv := consts[name]
+				cl := limbs4(cv)
+				for tie := 1; tie <= 4; tie++ { // top `tie` limbs equal to the constant's
+					for variant := 0; variant < 12; variant++ {
+						var l [4]uint64
+						for i := 0; i < 4; i++ {
+							if i >= 4-tie {
+								l[i] = cl[i]
+							} else {
+								switch (variant + i) % 6 {
+								case 0:
+									l[i] = cl[i] + 1
+								case 1:
+									l[i] = cl[i] - 1
+								case 2:
+									l[i] = 0
+								case 3:
+									l[i] = ^uint64(0)
+								case 4:
+									l[i] = cl[i]
+								default:
+									l[i] = rng.Uint64()
+								}
+							}
+						}
+						if fromLimbs(l).Cmp(m) >= 0 {
+							continue
+						}
+						ai := fromLimbs(l)
+						rinv := new(big.Int).ModInverse(c16B256, m)
+						chkT := func(op string, got interface{}, want *big.Int) {
+							if f.raw(got) != limbs4(want) {
+								r.Violation(fmt.Sprintf("field-%s-%s-wrong-on-limbs-tied-with-a-constant", f.name, op), hk.D{"field": f.name, "op": op, "constant": name, "tied_top_limbs": tie,
+									"internal_limbs": fmt.Sprintf("%016x", l), "got_limbs": fmt.Sprintf("%016x", f.raw(got)), "want_limbs": fmt.Sprintf("%016x", limbs4(want))})
+							}
+						}
+						ea := f.setRaw(l)
+						chkT("add-same-object", f.aliasAdd(ea), mod(new(big.Int).Add(ai, ai)))
+						chkT("add-equal-values", f.add(ea, f.setRaw(l)), mod(new(big.Int).Add(ai, ai)))
+						chkT("add-same-pointer-fresh-receiver", f.add(ea, ea), mod(new(big.Int).Add(ai, ai)))
+						chkT("sub-same-pointer", f.sub(ea, ea), big.NewInt(0))
+						chkT("mul-same-object", f.aliasMul(ea), mod(new(big.Int).Mul(new(big.Int).Mul(ai, ai), rinv)))
+						chkT("mul-same-pointer-fresh-receiver", f.mul(ea, ea), mod(new(big.Int).Mul(new(big.Int).Mul(ai, ai), rinv)))
+						chkT("square", f.square(ea), mod(new(big.Int).Mul(new(big.Int).Mul(ai, ai), rinv)))
+						if f.opp != nil {
+							chkT("opp", f.opp(ea), mod(new(big.Int).Neg(ai)))
+						}
+						chkT("sub-from-zero", f.sub(f.zero(), ea), mod(new(big.Int).Neg(ai)))
+						if !bytes.Equal(f.bytes(ea), c16b32(mod(new(big.Int).Mul(ai, rinv)))) {
+							r.Violation(fmt.Sprintf("field-%s-bytes-wrong-on-limbs-tied-with-a-constant", f.name), hk.D{"constant": name, "internal_limbs": fmt.Sprintf("%016x", l)})
+						}
+						nTies++
+					}
+				}
+			}
+			r.EvalN(fmt.Sprintf("field-%s:limbs-tied-with-derived-constants", f.name), nTies*10)
 		}
 
 		// operands SOLVED for the accumulator BEFORE the final conditional subtraction of a Montgomery
